@@ -741,6 +741,21 @@ func (vc *VC) specConv(t types.Type, v Term) Term {
 	if si := vc.ss.info[ts]; si != nil && si.Kind == "struct" && len(si.Fields) == 1 && si.Fields[0].Sort == v.Sort {
 		return Term{fmt.Sprintf("(mk.%s %s)", ts, v.S), ts, t}
 	}
+	// struct to struct with identical field lists (type ImplicitlyMarshaledEntityUID EntityUID)
+	if si, vi := vc.ss.info[ts], vc.ss.info[v.Sort]; si != nil && vi != nil && si.Kind == "struct" && vi.Kind == "struct" && len(si.Fields) == len(vi.Fields) && len(si.Fields) > 0 {
+		same := true
+		var parts []string
+		for i := range si.Fields {
+			if si.Fields[i].Sort != vi.Fields[i].Sort || si.Fields[i].Name != vi.Fields[i].Name {
+				same = false
+				break
+			}
+			parts = append(parts, fmt.Sprintf("(%s.%s %s)", v.Sort, vi.Fields[i].Name, v.S))
+		}
+		if same {
+			return Term{fmt.Sprintf("(mk.%s %s)", ts, strings.Join(parts, " ")), ts, t}
+		}
+	}
 	return vc.specFail("conversion %s(%s) not supported in contracts", t, v.Sort)
 }
 
